@@ -578,6 +578,13 @@ const char *gen_terminator(Rng &r) {
 }
 
 static std::string gen_int(Rng &r) {
+    if (r.chance(1, 12)) {
+        // range boundaries of the 32- and 64-bit readers, and values beyond them (conversion overflow)
+        static const char *edge[] = {"#HFFFFFFFFFFFFFFFF", "#HFFFFFFFF", "#H7FFFFFFF", "#H80000000", "#H7FFFFFFFFFFFFFFF", "#H1FFFFFFFFFFFFFFFF", "2147483647", "-2147483648",
+                                     "4294967295", "9223372036854775807", "-9223372036854775808", "18446744073709551615", "99999999999999999999", "-99999999999999999999",
+                                     "#Q1777777777777777777777", "#B11111111111111111111111111111111"};
+        return edge[r.below(sizeof edge / sizeof edge[0])];
+    }
     switch (r.below(6)) {
         case 0: return std::to_string((long) r.below(10));
         case 1: return std::to_string(-(long) r.below(1000));
@@ -588,6 +595,10 @@ static std::string gen_int(Rng &r) {
     }
 }
 static std::string gen_real(Rng &r) {
+    if (r.chance(1, 16)) {
+        static const char *edge[] = {"1E39", "1e999", "-1e999", "1e-999", "3.4028235E38", "1.7976931348623157e308", "4.9e-324", "1e400"};
+        return edge[r.below(sizeof edge / sizeof edge[0])];
+    }
     switch (r.below(7)) {
         case 0: return fmt("%ld.%ld", (long) r.below(100), (long) r.below(1000));
         case 1: return fmt(".%ld", (long) r.below(100));
@@ -635,9 +646,20 @@ static std::string gen_block(Rng &r) {
     }
     std::string len = std::to_string(body.size());
     if (r.chance(1, 5)) len = std::string((size_t) r.range(1, 3), '0') + len;   // leading zeros in the length field
+    else if (r.chance(1, 8)) len = std::string(9 - len.size(), '0') + len;       // the widest length field there is
     return "#" + std::to_string(len.size()) + len + body;
 }
-static std::string gen_expr(Rng &r) {
+static std::string gen_expr(Rng &r, const MsgGenOpts &o) {
+    if ((o.expr_quotes || o.malformed) && r.chance(1, 10)) {
+        // quotes inside parentheses are not expression characters; a terminator between them is a terminator
+        const char *nl = o.string_nl ? (r.chance(1, 2) ? "\n" : "\r\n") : ";";
+        switch (r.below(4)) {
+            case 0: return std::string("(@\"A") + nl + "B\")";
+            case 1: return std::string("('x") + nl + "y',1)";
+            case 2: return "(\"a)b\")";
+            default: return "(1,\"2:3\",'4')";
+        }
+    }
     switch (r.below(6)) {
         case 0: return "(1,2:5)";
         case 1: return fmt("(@%ld!%ld:%ld!%ld,%ld)", (long) r.below(9), (long) r.below(9), (long) r.below(9), (long) r.below(9), (long) r.below(9));
@@ -656,7 +678,7 @@ std::string gen_param(Rng &r, const MsgGenOpts &o, int kind) {
         case 's': return gen_string(r, o);
         case 'b': return o.blocks ? gen_block(r) : gen_string(r, o);
         case 'm': return MNEMS[r.below(sizeof MNEMS / sizeof MNEMS[0])];
-        case 'e': return gen_expr(r);
+        case 'e': return gen_expr(r, o);
         case 'n': return (r.chance(1, 2) ? std::to_string(r.range(-500, 500)) : gen_real(r)) + (r.chance(3, 4) ? SUFFIXES[r.below(sizeof SUFFIXES / sizeof SUFFIXES[0])] : "");
         case 'B': return r.chance(1, 2) ? (r.chance(1, 2) ? "ON" : "OFF") : (r.chance(1, 2) ? "1" : "0");
         case 'C': {
